@@ -24,12 +24,17 @@ Definition blen (m : bytes) : Z := Z.of_nat (length m).
 
 (* exception kinds that can leave Listener()/accept()/Client() because of the
    handshake *)
-Inductive exn := AuthenticationError | AssertionError | OSError | TypeError.
+Inductive exn := AuthenticationError | AssertionError | OSError | TypeError
+               (* connection errors a send_bytes / recv_bytes call may raise (channel
+                  faults, see run1f / run2f below); the handshake itself never raises them *)
+               | BrokenPipeError | ConnectionResetError | EOFError.
 
 Definition exn_eqb (a b : exn) : bool :=
   match a, b with
   | AuthenticationError, AuthenticationError | AssertionError, AssertionError
-  | OSError, OSError | TypeError, TypeError => true
+  | OSError, OSError | TypeError, TypeError
+  | BrokenPipeError, BrokenPipeError | ConnectionResetError, ConnectionResetError
+  | EOFError, EOFError => true
   | _, _ => false
   end.
 
@@ -120,6 +125,68 @@ Fixpoint run2 (fuel : nat) (a b : proc) (qa qb sa sb : list bytes)
           end
       end
   end.
+
+(* ---- channel faults.  Every send_bytes call may fail: an oracle decides, per call
+   of this side (numbered from 0), whether the message is delivered (None) or the
+   call raises a connection error (Some e; the message is NOT delivered).  Every
+   recv_bytes call either meets a whole message or raises.  In a process term an
+   exception raised by a call leaves the role (the handshake functions contain no
+   try/except -- the generator refuses them), so the role ends `Raised e`. *)
+Inductive rev :=
+| Msg (m : bytes)             (* recv_bytes meets this message *)
+| RFail (e : exn).            (* recv_bytes raises e *)
+
+Definition faults := nat -> option exn.
+
+(* one honest side against an arbitrary peer and an arbitrary channel: `i` = number
+   of send_bytes calls made so far.  Result: the messages DELIVERED, the outcome. *)
+Fixpoint run1f (p : proc) (inc : list rev) (fl : faults) (i : nat) : list bytes * outcome :=
+  match p with
+  | Send m k =>
+      match fl i with
+      | Some e => ([], Raised e)
+      | None => let (s, o) := run1f k inc fl (S i) in (m :: s, o)
+      end
+  | Recv n k =>
+      match inc with
+      | [] => ([], Starved)
+      | RFail e :: _ => ([], Raised e)
+      | Msg m :: r => if blen m <=? n then run1f (k m) r fl i else ([], Raised OSError)
+      end
+  | Ret => ([], Returned)
+  | Raise e => ([], Raised e)
+  end.
+
+(* two honest sides, each with its own send oracle (fa/fb, counters na/nb): a send
+   that fails delivers nothing and turns the sender into `Raise e` *)
+Fixpoint run2f (fuel : nat) (a b : proc) (qa qb sa sb : list bytes) (fa fb : faults) (na nb : nat)
+  : (outcome * list bytes) * (outcome * list bytes) :=
+  match fuel with
+  | O => ((OutOfFuel, sa), (OutOfFuel, sb))
+  | S f =>
+      match a, qa with
+      | Send m k, _ =>
+          match fa na with
+          | Some e => run2f f (Raise e) b qa qb sa sb fa fb (S na) nb
+          | None => run2f f k b qa (qb ++ [m]) (sa ++ [m]) sb fa fb (S na) nb
+          end
+      | Recv n k, m :: r => run2f f (deliver_msg n k m) b r qb sa sb fa fb na nb
+      | _, _ =>
+          match b, qb with
+          | Send m k, _ =>
+              match fb nb with
+              | Some e => run2f f a (Raise e) qa qb sa sb fa fb na (S nb)
+              | None => run2f f a k (qa ++ [m]) qb sa (sb ++ [m]) fa fb na (S nb)
+              end
+          | Recv n k, m :: r => run2f f a (deliver_msg n k m) qa r sa sb fa fb na nb
+          | _, _ => ((final a, sa), (final b, sb))
+          end
+      end
+  end.
+
+Definition no_faults : faults := fun _ => None.
+(* a finite script of send results; calls beyond it are delivered *)
+Definition faults_of (l : list (option exn)) : faults := fun i => nth i l None.
 
 (* ---- vocabulary of the generated description of Listener / Client *)
 Inductive hstep := Deliver | Answer.
